@@ -81,6 +81,10 @@ void do_plan(int tier)
     plan.init_threads = 0;
   else
     plan.init_threads = nth;
+  if (lane != LANE_DEBUG && sim_plan(8) == 0) {
+    plan.init_threads = 0;  // the tasking system is used without having been initialised
+    plan.lazy_teardown = lane == LANE_INTERNAL;
+  }
   sim_set_cores(2 + (int)sim_plan(5));
   sim_set_tso(sim_plan(4) == 0);
   plan.ncalls = 1 + (int)sim_plan(C01_MAXCALLS);
